@@ -44,6 +44,21 @@ fn gen_set(rng: &mut Rng) -> (Maps, Category) {
             if !m.classes.contains_key(&name) { rename_family(&mut m, &t, &name); }
         }
     }
+    // deep nesting now and then: a chain of 13..=28 inner classes below one top-level class (the text form indents one tab per level)
+    if rng.chance(1, 12) {
+        let tops: Vec<String> = m.classes.keys().filter(|k| split_inner(k).is_none() && !k.contains('$')).cloned().collect();
+        if let Some(t) = tops.first().cloned() {
+            let depth = rng.usize_in(13, 28);
+            let mut src = t.clone();
+            for d in 1..=depth {
+                src = format!("{src}$N{d}");
+                if m.classes.contains_key(&src) { break; }
+                let mut c = maps::Class { names: vec![Some(src.clone()), if rng.chance(1, 6) { None } else { Some(format!("T{d}")) }], ..Default::default() };
+                if rng.chance(1, 3) { c.comment = Some(format!("level {d}")); }
+                m.classes.insert(src.clone(), c);
+            }
+        }
+    }
     let which = rng.below(20);
     // proviso (except for the small "outside" category, which is only watched for panics)
     if which != 0 {
@@ -267,6 +282,7 @@ fn one_case(rng: &mut Rng, rep: &mut Report, case: u64, scratch: Option<&Scratch
         if parent_in_set(&m, src).is_some() { rep.count("class.nested_with_parent_in_set"); if c.names[1].is_none() { rep.count("class.nested_without_target_name"); } }
         if is_orphan(&m, src) { rep.count("class.orphan"); }
         rep.max("max.nesting_depth", src.matches('$').count() as u64);
+        if src.matches('$').count() >= 17 { rep.count("class.nesting_depth_17_or_more"); }
         for me in c.methods.values() {
             if me.names[1].as_deref() == Some("<init>") { rep.count("method.target_name_is_init"); }
             for p in me.params.values() { if p.comment.is_some() { rep.count("parameter.with_comment"); } if p.names[0].is_some() { rep.count("parameter.with_source_name"); } }
@@ -467,6 +483,7 @@ fn main() {
         meta.oblige("comments with blank lines, leading spaces, # characters (at line start and inside)", ["comment.blank line", "comment.line with leading space", "comment.contains #", "comment.a line starts with #"].iter().all(|k| rep.get(k) > 0));
         meta.oblige("packages at depth 0, 1, 2, 3 and 4", (0..=4).all(|d| rep.get(&format!("package_depth.{d}")) > 0));
         meta.oblige("nesting depth >= 3", rep.get("max.nesting_depth") >= 3);
+        meta.oblige("judged sets with nesting depth >= 17 (chains of inner classes)", rep.get("max.nesting_depth") >= 17 && rep.get("class.nesting_depth_17_or_more") >= 20);
         meta.oblige("constructors named <init> in the target namespace", rep.get("method.target_name_is_init") > 0);
         meta.oblige("directories with >= 5 files and depth >= 3", rep.get("max.files_in_directory") >= 5 && rep.get("max.directory_depth") >= 3);
         meta.oblige("stream, write_one and directory formats all exercised", rep.get("stream.writes") > 0 && rep.get("write_one.calls") > 0 && rep.get("directory.writes") > 0);
